@@ -199,14 +199,14 @@ theorem parseNodes_end_close (f : Nat) (scope : Option Bytes) (r : Bytes) (acc :
 
 def textPieces (d : Bytes) : List XNode := d.map fun b => XNode.text [b]
 
-def pieces (inh : Option Bytes) : Tree → List XNode
-  | .tag n a ks => [canonRaw inh (.tag n a ks)]
+def pieces (par : Option (Option HashTab)) (inh : Option Bytes) : Tree → List XNode
+  | .tag n a ks => [canonRawR par inh (.tag n a ks)]
   | .text d _ => textPieces d
   | .unknown _ => []
 
-def piecesKids (inh : Option Bytes) : List Tree → List XNode
+def piecesKids (par : Option (Option HashTab)) (inh : Option Bytes) : List Tree → List XNode
   | [] => []
-  | k :: ks => pieces inh k ++ piecesKids inh ks
+  | k :: ks => pieces par inh k ++ piecesKids par inh ks
 
 def cost : Tree → Nat
   | .tag _ _ _ => 1
@@ -266,15 +266,15 @@ theorem foldr_textPieces (d : Bytes) (R : List XNode) : (textPieces d).foldr con
 theorem finish_reverse (l : List XNode) : finish l.reverse = l.foldr consNode [] := by
   simp [finish, List.foldl_reverse]
 
-theorem foldr_piecesKids (inh : Option Bytes) : ∀ ks : List Tree,
-    (piecesKids inh ks).foldr consNode [] = canonKidsRaw inh ks
-  | [] => by simp [piecesKids, canonKidsRaw]
+theorem foldr_piecesKids (par : Option (Option HashTab)) (inh : Option Bytes) : ∀ ks : List Tree,
+    (piecesKids par inh ks).foldr consNode [] = canonKidsRawR par inh ks
+  | [] => by simp [piecesKids, canonKidsRawR]
   | k :: ks => by
-    rw [piecesKids, List.foldr_append, foldr_piecesKids inh ks, canonKidsRaw]
+    rw [piecesKids, List.foldr_append, foldr_piecesKids par inh ks, canonKidsRawR]
     cases k with
     | tag n a kk => simp [pieces]
-    | text d kk => simp [pieces, foldr_textPieces, canonRaw, consNode]
-    | unknown kk => simp [pieces, canonRaw, consNode, consText]
+    | text d kk => simp [pieces, foldr_textPieces, canonRawR, consNode]
+    | unknown kk => simp [pieces, canonRawR, consNode, consText]
 
 
 /-- the namespace in scope where the tree is read agrees with an `xmlns` the renderer leaves out -/
@@ -462,21 +462,20 @@ theorem shown_ok (par : Option (Option HashTab)) (attrs : Option HashTab)
 mutual
 /-- the content loop reads the rendering of one node and goes on behind it -/
 theorem parse_tree : ∀ (t : Tree) (par : Option (Option HashTab)) (scope : Option Bytes) (f : Nat)
-    (acc : List XNode) (X : Bytes), WfTree t → Ctx par scope t → (render par t ++ X).length < f →
-    parseNodes f scope (render par t ++ X) acc = parseNodes (f - cost t) scope X ((pieces scope t).reverse ++ acc)
-  | .unknown _, _, _, _, _, _, hw, _, _ => by simp [WfTree] at hw
-  | .text d kk, par, scope, f, acc, X, hw, _, hf => by
+    (acc : List XNode) (X : Bytes), WfTree t → (render par t ++ X).length < f →
+    parseNodes f scope (render par t ++ X) acc =
+      parseNodes (f - cost t) scope X ((pieces par scope t).reverse ++ acc)
+  | .unknown _, _, _, _, _, _, hw, _ => by simp [WfTree] at hw
+  | .text d kk, par, scope, f, acc, X, hw, hf => by
     simp only [WfTree] at hw
     simp only [render, cost, pieces]
     have := escapeXml_length d
     simp only [render, List.length_append] at hf
     exact parseNodes_text d f scope X acc hw.2.1 (by omega)
-  | .tag name attrs ks, par, scope, f, acc, X, hw, hc, hf => by
+  | .tag name attrs ks, par, scope, f, acc, X, hw, hf => by
     simp only [WfTree] at hw
     obtain ⟨hname, _, hattrs, hkids⟩ := hw
-    have hwf : ∀ tab, attrs = some tab → HashTab.WF tab := fun tab h => (hattrs tab h).1
     obtain ⟨hAok, hdup⟩ := shown_ok par attrs hattrs
-    have hns := scope_of_shown par scope name attrs ks hwf hc
     have hplain := plain_of_shown par attrs
     have hAlen := flatMap_renderAttr_length (shownAttrs par attrs)
     obtain ⟨b0, nr0, hn0, _⟩ := isName_head name hname
@@ -492,7 +491,7 @@ theorem parse_tree : ∀ (t : Tree) (par : Option (Option HashTab)) (scope : Opt
       obtain ⟨f', rfl⟩ : ∃ f', f = f' + 1 := ⟨f - 1, by simp at hf; omega⟩
       rw [elem_step f' scope acc name _ true X hname hAok
         (by simp only [List.length_cons, List.length_append] at hf; omega) hdup]
-      simp only [if_true, hns, hplain, cost, pieces, canonRaw, canonKidsRaw, List.reverse_cons, List.reverse_nil,
+      simp only [if_true, hplain, cost, pieces, canonRawR, canonKidsRawR, List.reverse_cons, List.reverse_nil,
         List.nil_append, List.cons_append, Nat.add_sub_cancel]
     | cons k ks' =>
       have hin : lt :: name ++ (shownAttrs par attrs).flatMap renderAttr ++
@@ -507,9 +506,8 @@ theorem parse_tree : ∀ (t : Tree) (par : Option (Option HashTab)) (scope : Opt
       have hck := costKids_le (some attrs) (k :: ks') hkids
       rw [elem_step f' scope acc name _ false _ hname hAok
         (by simp only [List.length_cons, List.length_append] at hf; omega) hdup]
-      simp only [Bool.false_eq_true, if_false, hns, hplain]
-      rw [parse_kids (k :: ks') (some attrs) (effNs scope attrs) f' [] _ hkids
-        (fun k' _ => ctx_kid attrs scope k') hlen]
+      simp only [Bool.false_eq_true, if_false, hplain]
+      rw [parse_kids (k :: ks') (some attrs) (scopeOf scope (shownAttrs par attrs)) f' [] _ hkids hlen]
       obtain ⟨f'', hf''⟩ : ∃ f'', f' - costKids (k :: ks') = f'' + 1 :=
         ⟨f' - costKids (k :: ks') - 1, by simp only [List.length_append] at hlen; omega⟩
       rw [hf'', parseNodes_end_close]
@@ -517,22 +515,21 @@ theorem parse_tree : ∀ (t : Tree) (par : Option (Option HashTab)) (scope : Opt
       rw [parseName_append name (0x3E :: X) hname (stopsName_cons _ _ (by decide))]
       simp only [ne_eq, not_true_eq_false, if_false]
       rw [dropWhile_isSpace_cons _ _ (by decide)]
-      simp only [List.append_nil, finish_reverse, foldr_piecesKids, cost, pieces, canonRaw, List.reverse_cons,
+      simp only [List.append_nil, finish_reverse, foldr_piecesKids, cost, pieces, canonRawR, List.reverse_cons,
         List.reverse_nil, List.nil_append, List.cons_append, Nat.add_sub_cancel]
 /-- … and the renderings of a list of siblings -/
 theorem parse_kids : ∀ (ks : List Tree) (par : Option (Option HashTab)) (scope : Option Bytes) (f : Nat)
-    (acc : List XNode) (X : Bytes), WfKids ks → (∀ k ∈ ks, Ctx par scope k) → (renderKids par ks ++ X).length < f →
+    (acc : List XNode) (X : Bytes), WfKids ks → (renderKids par ks ++ X).length < f →
     parseNodes f scope (renderKids par ks ++ X) acc =
-      parseNodes (f - costKids ks) scope X ((piecesKids scope ks).reverse ++ acc)
-  | [], _, _, _, _, _, _, _, _ => by simp [renderKids, costKids, piecesKids]
-  | k :: ks, par, scope, f, acc, X, hw, hc, hf => by
+      parseNodes (f - costKids ks) scope X ((piecesKids par scope ks).reverse ++ acc)
+  | [], _, _, _, _, _, _, _ => by simp [renderKids, costKids, piecesKids]
+  | k :: ks, par, scope, f, acc, X, hw, hf => by
     simp only [WfKids] at hw
     have hcl := cost_le par k hw.1
     simp only [renderKids, List.append_assoc, List.length_append] at hf
     rw [renderKids, List.append_assoc,
-      parse_tree k par scope f acc _ hw.1 (hc k (List.mem_cons_self ..)) (by simp only [List.length_append]; omega),
-      parse_kids ks par scope (f - cost k) _ X hw.2 (fun k' h => hc k' (List.mem_cons_of_mem _ h))
-        (by simp only [List.length_append]; omega)]
+      parse_tree k par scope f acc _ hw.1 (by simp only [List.length_append]; omega),
+      parse_kids ks par scope (f - cost k) _ X hw.2 (by simp only [List.length_append]; omega)]
     simp [costKids, piecesKids, Nat.sub_sub, List.reverse_append, List.append_assoc]
 end
 
@@ -601,13 +598,13 @@ end
 /-! ### the document level -/
 
 /-- the reader of `Spec/Xml.lean`, placed where the default namespace is `scope`, reads the rendering of a
-    well-formed element back as its canonical tree (attributes still in iteration order) -/
-theorem parseRaw_render (name : Bytes) (attrs : Option HashTab) (ks : List Tree) (par : Option (Option HashTab))
-    (scope : Option Bytes) (hw : WfTree (.tag name attrs ks)) (hc : Ctx par scope (.tag name attrs ks)) :
-    parseRaw scope (render par (.tag name attrs ks)) = some (canonRaw scope (.tag name attrs ks)) := by
-  unfold parseRaw
-  rw [legalChars_render _ par hw, if_pos rfl]
-  have h := parse_tree (.tag name attrs ks) par scope ((render par (.tag name attrs ks)).length + 1) [] [] hw hc
+    well-formed element back as the tree that rendering denotes (attributes still in iteration order) — no
+    hypothesis on `scope` -/
+theorem parseNodes_render (name : Bytes) (attrs : Option HashTab) (ks : List Tree) (par : Option (Option HashTab))
+    (scope : Option Bytes) (hw : WfTree (.tag name attrs ks)) :
+    parseNodes ((render par (.tag name attrs ks)).length + 1) scope (render par (.tag name attrs ks)) [] =
+      some ([canonRawR par scope (.tag name attrs ks)], []) := by
+  have h := parse_tree (.tag name attrs ks) par scope ((render par (.tag name attrs ks)).length + 1) [] [] hw
     (by simp)
   simp only [List.append_nil, cost, pieces, List.reverse_cons, List.reverse_nil, List.nil_append,
     Nat.add_sub_cancel] at h
@@ -615,6 +612,56 @@ theorem parseRaw_render (name : Bytes) (attrs : Option HashTab) (ks : List Tree)
   have hpos : 1 ≤ (render par (.tag name attrs ks)).length := by rw [render_tag]; simp
   obtain ⟨n, hn⟩ : ∃ n, (render par (.tag name attrs ks)).length = n + 1 := ⟨_, (Nat.sub_add_cancel hpos).symm⟩
   rw [hn, parseNodes_end_nil]
-  simp [finish, consNode, canonRaw]
+  simp [finish, consNode, canonRawR]
+
+theorem parseRaw_render_R (name : Bytes) (attrs : Option HashTab) (ks : List Tree) (par : Option (Option HashTab))
+    (scope : Option Bytes) (hw : WfTree (.tag name attrs ks)) :
+    parseRaw scope (render par (.tag name attrs ks)) = some (canonRawR par scope (.tag name attrs ks)) := by
+  unfold parseRaw
+  rw [legalChars_render _ par hw, if_pos rfl, parseNodes_render name attrs ks par scope hw]
+  simp [canonRawR]
+
+mutual
+/-- where the reader's scope agrees with the declarations the renderer leaves out, the rendering denotes the
+    canonical tree of the stanza tree itself -/
+theorem canonRawR_eq : ∀ (t : Tree) (par : Option (Option HashTab)) (scope : Option Bytes),
+    TabsWF t → Ctx par scope t → canonRawR par scope t = canonRaw scope t
+  | .unknown _, _, _, _, _ => by simp [canonRawR, canonRaw]
+  | .text d _, _, _, _, _ => by simp [canonRawR, canonRaw]
+  | .tag name attrs ks, par, scope, hw, hc => by
+    simp only [TabsWF] at hw
+    have hns := scope_of_shown par scope name attrs ks hw.1 hc
+    simp only [canonRawR, canonRaw, hns]
+    rw [canonKidsRawR_eq ks attrs scope hw.2]
+theorem canonKidsRawR_eq : ∀ (ks : List Tree) (attrs : Option HashTab) (scope : Option Bytes), TabsWFKids ks →
+    canonKidsRawR (some attrs) (effNs scope attrs) ks = canonKidsRaw (effNs scope attrs) ks
+  | [], _, _, _ => by simp [canonKidsRawR, canonKidsRaw]
+  | k :: ks, attrs, scope, hw => by
+    simp only [TabsWFKids] at hw
+    simp only [canonKidsRawR, canonKidsRaw]
+    rw [canonRawR_eq k (some attrs) (effNs scope attrs) hw.1 (ctx_kid attrs scope k),
+      canonKidsRawR_eq ks attrs scope hw.2]
+end
+
+mutual
+theorem wfTree_tabsWF : ∀ t : Tree, WfTree t → TabsWF t
+  | .unknown _, h => by simp [WfTree] at h
+  | .text d kk, h => by simp only [WfTree] at h; simp only [TabsWF]; exact h.2.2
+  | .tag name attrs ks, h => by
+    simp only [WfTree] at h
+    simp only [TabsWF]
+    exact ⟨fun tab e => (h.2.2.1 tab e).1, wfKids_tabsWF ks h.2.2.2⟩
+theorem wfKids_tabsWF : ∀ ks : List Tree, WfKids ks → TabsWFKids ks
+  | [], _ => by simp [TabsWFKids]
+  | k :: ks, h => by
+    simp only [WfKids] at h
+    simp only [TabsWFKids]
+    exact ⟨wfTree_tabsWF k h.1, wfKids_tabsWF ks h.2⟩
+end
+
+theorem parseRaw_render (name : Bytes) (attrs : Option HashTab) (ks : List Tree) (par : Option (Option HashTab))
+    (scope : Option Bytes) (hw : WfTree (.tag name attrs ks)) (hc : Ctx par scope (.tag name attrs ks)) :
+    parseRaw scope (render par (.tag name attrs ks)) = some (canonRaw scope (.tag name attrs ks)) := by
+  rw [parseRaw_render_R name attrs ks par scope hw, canonRawR_eq _ par scope (wfTree_tabsWF _ hw) hc]
 
 end Strophe.Stanza
